@@ -246,6 +246,11 @@ func fieldNameOfStruct(a *ssa.Field) string {
 
 // linOf expresses v as a linear form.
 func linOf(v ssa.Value, env *linEnv) lin {
+	if env != nil && env.alias != nil {
+		if s, ok := env.alias(v); ok {
+			return linAtom(s)
+		}
+	}
 	switch x := v.(type) {
 	case *ssa.Const:
 		if k, ok := constIntVal(x); ok {
